@@ -13,7 +13,7 @@ Record cinfo := {
   ci_challenge : string;    (* codes: PKCE parameters of the authorization request *)
   ci_method : string;
   ci_scopes : list string;  (* granted scopes of the grant *)
-  ci_aud : list string;
+  ci_aud : list aurl;       (* granted audience, as parsed by Go *)
   ci_subject : string;
   ci_issued : Z;            (* model-free clock reading when the credential was handed out *)
   ci_decision : nat         (* device codes: 0 undecided, 1 accepted, 2 rejected *)
@@ -53,7 +53,7 @@ Definition client_has_grant (m : mstate) (c : nat) (g : string) : bool :=
   match nth_error (m_clients m) c with Some cl => args_has (cl_grants cl) [g] | None => false end.
 
 (* credentials minted by a token response of grant family [fam] for client [c] *)
-Definition token_infos (tnow : Z) (base : nat) (kinds : list ckind) (c fam : nat) (sc aud : list string) (sub : string) : list cinfo :=
+Definition token_infos (tnow : Z) (base : nat) (kinds : list ckind) (c fam : nat) (sc : list string) (aud : list aurl) (sub : string) : list cinfo :=
   match kinds with
   | [KAccess; KRefresh] =>
       [{| ci_kind := KAccess; ci_client := c; ci_family := fam; ci_pair := Some (S base); ci_challenge := ""; ci_method := "";
@@ -75,7 +75,7 @@ Definition track (m : mstate) (o : op) (ob : obs) (probes : list (option payload
   | OAuthorize a =>
       if ok then add (map (fun k => {| ci_kind := k; ci_client := az_client a; ci_family := base; ci_pair := None;
                                         ci_challenge := az_challenge a; ci_method := az_method a;
-                                        ci_scopes := az_granted a; ci_aud := map a_raw (az_gaud a); ci_subject := az_subject a; ci_issued := tnow; ci_decision := 0 |})
+                                        ci_scopes := az_granted a; ci_aud := az_gaud a; ci_subject := az_subject a; ci_issued := tnow; ci_decision := 0 |})
                          (o_minted ob))
       else add []
   | ORedeem _ code _ _ _ _ =>
@@ -99,9 +99,9 @@ Definition track (m : mstate) (o : op) (ob : obs) (probes : list (option payload
       | None => add (token_infos tnow base (o_minted ob) 0 base [] [] "")
       end
   | OPassword auth _ _ _ g ga =>
-      add (token_infos tnow base (o_minted ob) (match auth with Some c => c | None => 0 end) base g (map a_raw ga) "uuid")
+      add (token_infos tnow base (o_minted ob) (match auth with Some c => c | None => 0 end) base g ga "uuid")
   | OClientCreds auth _ _ g ga =>
-      add (token_infos tnow base (o_minted ob) (match auth with Some c => c | None => 0 end) base g (map a_raw ga) "")
+      add (token_infos tnow base (o_minted ob) (match auth with Some c => c | None => 0 end) base g ga "")
   | OAdvance ms =>
       {| m_creds := m_creds m; m_clients := m_clients m; m_redeemed := m_redeemed m; m_used_rt := m_used_rt m;
          m_dead := m_dead m; m_dead_creds := m_dead_creds m; m_prev := probes; m_now := (m_now m + ms)%Z |}
@@ -112,7 +112,7 @@ Definition track (m : mstate) (o : op) (ob : obs) (probes : list (option payload
       let c := match bc, auth with Some b, _ => b | None, Some x => x | None, None => 0 end in
       add (map (fun k => {| ci_kind := k; ci_client := c; ci_family := base; ci_pair := None;
                             ci_challenge := az_challenge a; ci_method := az_method a;
-                            ci_scopes := az_scopes a; ci_aud := map a_raw (az_aud a); ci_subject := ""; ci_issued := tnow; ci_decision := 0 |}) (o_minted ob))
+                            ci_scopes := az_scopes a; ci_aud := az_aud a; ci_subject := ""; ci_issued := tnow; ci_decision := 0 |}) (o_minted ob))
   | OAuthorizePAR _ uri a =>
       match cred m uri with
       | Some (pi, pc) =>
@@ -121,7 +121,7 @@ Definition track (m : mstate) (o : op) (ob : obs) (probes : list (option payload
           (add (map (fun k => {| ci_kind := k; ci_client := ci_client pc; ci_family := base; ci_pair := None;
                                 ci_challenge := if String.eqb (ci_challenge pc) "" then az_challenge a else ci_challenge pc;
                                 ci_method := if String.eqb (ci_method pc) "" then az_method a else ci_method pc;
-                                ci_scopes := az_granted a; ci_aud := map a_raw (az_gaud a); ci_subject := az_subject a; ci_issued := tnow; ci_decision := 0 |}) (o_minted ob)))
+                                ci_scopes := az_granted a; ci_aud := az_gaud a; ci_subject := az_subject a; ci_issued := tnow; ci_decision := 0 |}) (o_minted ob)))
       | None => add (token_infos tnow base (o_minted ob) 0 base [] [] "")
       end
   | ODeviceAuth auth _ sc au =>
@@ -133,7 +133,7 @@ Definition track (m : mstate) (o : op) (ob : obs) (probes : list (option payload
           if ok then
             {| m_creds := replace_nth (m_creds m) i
                             {| ci_kind := ci_kind c; ci_client := ci_client c; ci_family := ci_family c; ci_pair := ci_pair c;
-                               ci_challenge := ""; ci_method := ""; ci_scopes := g; ci_aud := map a_raw ga; ci_subject := sub;
+                               ci_challenge := ""; ci_method := ""; ci_scopes := g; ci_aud := ga; ci_subject := sub;
                                ci_issued := ci_issued c; ci_decision := if acc then 1 else 2 |};
                m_clients := m_clients m; m_redeemed := m_redeemed m; m_used_rt := m_used_rt m;
                m_dead := m_dead m; m_dead_creds := m_dead_creds m; m_prev := probes; m_now := m_now m |}
@@ -264,6 +264,8 @@ Definition judge_C08 : judge_t := fun m o ob pr =>
                 else (None, [], [])
               else if String.eqb (o_err ob) "" then
                 if live then (None, [], i :: match ci_pair c with Some p => [p] | None => [] end)
+                else if (memn i (m_used_rt m) || memn i (m_dead_creds m) || memn (ci_family c) (m_dead m)) && negb (same_probes m pr)
+                     then (Some "revocation_of_an_already_invalid_token_changed_something", [], [])
                 else (None, [], [])
               else (None, [], [])
           | None =>
@@ -312,7 +314,7 @@ Definition judge_C03 (cfg : config) : judge_t := fun m o ob pr =>
   end.
 
 (* ------------------------------------------------------------------ C02 *)
-Definition judge_C02 : judge_t := fun m o ob pr =>
+Definition judge_C02 (cfg : config) : judge_t := fun m o ob pr =>
   match o with
   | ORedeem auth code redirect _ _ _ =>
       match cred m code with
@@ -320,7 +322,9 @@ Definition judge_C02 : judge_t := fun m o ob pr =>
           if String.eqb (o_err ob) "" then
             match auth with
             | Some a => if Nat.eqb a (ci_client c) then
-                          if list_eqb (o_scopes ob) (ci_scopes c) then (None, [], []) else (Some "token_response_scope_differs_from_grant", [], [])
+                          (* the code's lifetime (the hybrid handler rounds the expiry to a whole second: half a second of slack) *)
+                          if Z.ltb (ci_issued c + cf_life_code cfg + 500) (m_now m) then (Some "code_redeemed_after_its_expiry", [], [])
+                          else if list_eqb (o_scopes ob) (ci_scopes c) then (None, [], []) else (Some "token_response_scope_differs_from_grant", [], [])
                         else (Some "code_redeemed_by_foreign_client", [], [])
             | None => (Some "code_redeemed_without_client_authentication", [], [])
             end
@@ -337,7 +341,7 @@ Fixpoint payloads_ok_from (cs : list cinfo) (probes : list (option payload)) : b
   | c :: cs', p :: ps' =>
       match p with
       | Some pl => ckind_eqb (pl_use pl) (match ci_kind c with KImplicit => KAccess | k => k end) && Nat.eqb (pl_client pl) (ci_client c) && String.eqb (pl_subject pl) (ci_subject c)
-                   && list_eqb (pl_scopes pl) (ci_scopes c) && list_eqb (pl_aud pl) (ci_aud c)
+                   && list_eqb (pl_scopes pl) (ci_scopes c) && list_eqb (pl_aud pl) (map a_raw (ci_aud c))
       | None => true
       end && payloads_ok_from cs' ps'
   | _, _ => true
@@ -369,6 +373,8 @@ Definition judge_C05 (cfg : config) : judge_t := fun m o ob pr =>
                      | Some cl =>
                          if negb (forallb (scope_match (cf_scope cfg) (cl_scopes cl)) (ci_scopes c))
                          then (Some "refresh_honoured_although_client_lost_a_granted_scope", [], [])
+                         else if negb (aud_ok cfg (cl_aud cl) (ci_aud c))
+                         then (Some "refresh_honoured_although_client_lost_a_granted_audience", [], [])
                          else if negb (list_eqb (o_scopes ob) (ci_scopes c)) then (Some "refresh_changed_the_granted_scopes", [], [])
                          else (None, [], [])
                      | None => (None, [], [])
@@ -506,6 +512,41 @@ Definition judge_C17 (cfg : config) : judge_t := fun m o ob pr =>
   | _ => (None, [], [])
   end.
 
+(* ------------------------------------------------------------------ C09: an "active" answer needs a live, untampered, server-minted
+   credential whose grant covers the required scopes; the endpoint answers authenticated callers only *)
+Definition active_answer_ok (cfg : config) (m : mstate) (tok : pres) (scopes : list string) : option string :=
+  match cred m tok with
+  | None => Some "unknown_token_reported_active"
+  | Some (i, c) =>
+      if p_tampered tok then Some "tampered_token_reported_active"
+      else if negb (probe_active (m_prev m) i) then Some "token_that_probes_inactive_reported_active"
+      else if negb (match_scopes cfg (ci_scopes c) scopes) then Some "token_reported_active_although_a_required_scope_was_not_granted"
+      else None
+  end.
+
+Definition judge_C09 (cfg : config) : judge_t := fun m o ob pr =>
+  match o with
+  | OIntrospect tok _ scopes =>
+      if String.eqb (o_err ob) "" then (active_answer_ok cfg m tok scopes, [], []) else (None, [], [])
+  | OIntrospectEP cal tok _ scopes =>
+      let answered := negb (String.eqb (o_err ob) "request_unauthorized") in
+      let caller_fine :=
+        match cal with
+        | CallerClient (Some c) => match nth_error (m_clients m) c with Some _ => true | None => false end
+        | CallerClient None => false
+        | CallerBearer ct =>
+            negb (pres_eqb ct tok) && negb (p_tampered ct) &&
+            match cred m ct with
+            | Some (j, cc) => probe_active (m_prev m) j && match ci_kind cc with KAccess | KImplicit => true | _ => false end
+            | None => false
+            end
+        end in
+      if answered && negb caller_fine then (Some "introspection_endpoint_answered_a_caller_without_valid_credentials", [], [])
+      else if String.eqb (o_err ob) "" then (active_answer_ok cfg m tok scopes, [], [])
+      else (None, [], [])
+  | _ => (None, [], [])
+  end.
+
 (* ------------------------------------------------------------------ C12 (flows): an accepted request is covered by the
    registration of the client it was made for, under the configured strategies *)
 Definition judge_C12 (cfg : config) : judge_t := fun m o ob pr =>
@@ -544,13 +585,13 @@ Definition judge_C12 (cfg : config) : judge_t := fun m o ob pr =>
 Definition check_with (mon : hcase -> option string) (c : hcase) : verdict := V (hist_corr c) (mon c).
 
 Definition check_C01 := check_with (monitor judge_C01).
-Definition check_C02 := check_with (fun c => first_some (monitor judge_C02 c) (payload_monitor c)).
+Definition check_C02 := check_with (fun c => first_some (monitor (judge_C02 (case_cfg c)) c) (payload_monitor c)).
 Definition check_C12H := check_with (fun c => first_some (monitor (judge_C12 (case_cfg c)) c) (payload_monitor c)).
 Definition check_C03 := check_with (fun c => monitor (judge_C03 (case_cfg c)) c).
 Definition check_C04 := check_with (monitor judge_C04).
 Definition check_C05 := check_with (fun c => first_some (monitor (judge_C05 (case_cfg c)) c) (payload_monitor c)).
 Definition check_C07 := check_with monitor_C07.
 Definition check_C08 := check_with (monitor judge_C08).
-Definition check_C09 := check_with payload_monitor.
+Definition check_C09 := check_with (fun c => first_some (monitor (judge_C09 (case_cfg c)) c) (payload_monitor c)).
 Definition check_C16 := check_with (fun c => first_some (monitor (judge_C16 (case_cfg c)) c) (payload_monitor c)).
 Definition check_C17 := check_with (fun c => monitor (judge_C17 (case_cfg c)) c).
